@@ -6,7 +6,9 @@ ID = 'C10'
 LEAN_MODULE = 'KernProofs.C10'
 THEOREMS = ['KM.C10.bottom_table', 'KM.C10.bottom_G2', 'KM.C10.letterToIndex_table', 'KM.C10.gkernLetters_table',
             'KM.C10.gkernOfPosition_steps', 'KM.C10.C10_position', 'KM.C10.C10_G2_identity', 'KM.C10.C10_translation',
-            'KM.C10.C10_bottom_is_e', 'KM.C10.C10_all_clefs', 'KM.C10.C10_marks_ignored']
+            'KM.C10.C10_bottom_is_e', 'KM.C10.C10_all_clefs', 'KM.C10.C10_marks_ignored',
+            'KM.C10D.lookup_sigsUpdate', 'KM.C10D.cellStep_body_sigs', 'KM.C10D.nodeAt_addNode', 'KM.C10D.SI_add', 'KM.C10D.runRows_SI',
+            'KM.C10D.C10_sigs_recurrence', 'KM.C10D.C10_clef_passes_down', "KM.C10D.C10_clef_passes_down'", 'KM.C10D.C10_clef_sets', 'KM.C10D.C10_clef_in_force']
 FINGERPRINTS = ['gkern.PositionInStaff', 'gkern.PitchPositionReferenceSystem.compute_position', 'gkern.ClefFactory.create_clef',
                 'gkern.gkern_to_g_clef_pitch', 'gkern.pitch_to_gkern_string', 'gkern.GKernExporter', 'gkern.Staff',
                 'pitch_models.AgnosticPitch']
@@ -119,10 +121,39 @@ def document_level(ctx, depth):
     for c in sc:
         c.import_impl()
     cases = sc + cases
+    sig_table(ctx, cases)
     docrun.run_option_sets(ctx, cases, [{'enc': 'akern', 'include': None, 'exclude': None}, {'enc': 'aekern', 'include': None, 'exclude': None}],
                            lambda case: [{}],
                            'the agnostic export of a document is not the kern export with the pitch letters converted under the clef in force for each note',
                            'agnostic document')
+
+
+def sig_table(ctx, cases):
+    """the statement of theorem C10_sigs_recurrence on the real tree: every node's last_signature_nodes is its parent's table, updated with the
+    node itself when its token is a signature; and the theorem's hypothesis on the parser's tokens (a signature token is neither a barline nor a
+    CORE token)"""
+    from kernpy.core.tokens import TokenCategory as TC, SignatureToken
+    for case in cases:
+        if case.doc is None:
+            continue
+        bad = None
+        for s, st in enumerate(case.doc.tree.stages):
+            for i, n in enumerate(st):
+                t = n.token
+                if t is None:
+                    continue
+                if isinstance(t, SignatureToken) and (t.category == TC.BARLINES or TC.is_child(child=t.category, parent=TC.CORE)):
+                    bad = ('hypothesis', s, i, type(t).__name__, t.category.name)
+                exp = dict(n.parent.last_signature_nodes.nodes) if n.parent is not None and n.parent.last_signature_nodes is not None else {}
+                if isinstance(t, SignatureToken):
+                    exp[type(t).__name__] = n
+                got = n.last_signature_nodes.nodes if n.last_signature_nodes is not None else {}
+                if {k: id(v) for k, v in got.items()} != {k: id(v) for k, v in exp.items()}:
+                    bad = ('recurrence', s, i, sorted(got), sorted(exp))
+        ctx.seen({'text': case.text, 'clause': 'signature table'}, True)
+        if bad:
+            ctx.fail({'text': case.text, 'clause': 'signature table: ' + bad[0], 'stage': bad[1], 'column': bad[2]},
+                     'the signature table of a node (the clef in force) is not its parent\'s table updated with the node itself', impl=list(bad[3:]))
 
 
 def token_level(ctx, depth):
